@@ -144,7 +144,13 @@ def gen_arg(rng, depth):
         p = rng.pick(["nope", "o.zz", "arr.[9]"])
         return p, {"v": None, "r": p, "m": True}
     # subexpression: typed result of the inner helper
-    h = rng.pick(["lookup", "eq", "len", "not"])
+    h = rng.pick(["lookup", "eq", "len", "not", "id"])
+    if h == "id":
+        # a user-defined helper (HelperDef::call_inner) that hands back its argument, and ScopedJson::Missing when there is none: the
+        # outer helper receives exactly that – a missing result stays flagged missing
+        s, e, m = rng.pick([("(id nope)", None, True), ("(id o.zz)", None, True), ("(id)", None, True), ("(id a)", 1, False), ("(id nul)", None, False),
+                            ("(id (id nope))", None, True), ("(id o)", {"k": "v", "n": [1, 2, 3]}, False)])
+        return s, {"v": e, "r": None, "m": m}
     if h == "lookup":
         s, e = rng.pick([("(lookup o \"k\")", "v"), ("(lookup arr 1)", "y"), ("(lookup o.n 2)", 3), ("(lookup o \"zz\")", None)])
         return s, {"v": e, "r": None, "m": False}
@@ -183,7 +189,8 @@ def gen_case(rng, i):
         bpn = rng.pick([0, 1, 2])
         bp = ["x1", "y2"][:bpn]
         els = rng.chance(0.5)
-        tag = inner + (" as |" + " ".join(bp) + "|" if bp else "") + post + "}}B" + ("{{else}}E" if els else "")
+        # bodies may be EMPTY: a block helper still receives its body and – when an else tag is there – its else body
+        tag = inner + (" as |" + " ".join(bp) + "|" if bp else "") + post + "}}" + rng.pick(["B", "B", ""]) + (rng.pick(["{{else}}E", "{{else}}", "{{^}}"]) if els else "")
         if form == "block":
             tpl = "{{" + pre + "#" + tag + "{{/pr}}"
         else:
@@ -193,7 +200,7 @@ def gen_case(rng, i):
         if (n + hn) == 0:
             args = [("1", {"v": 1, "r": None, "m": False})]
     exp = {"n": "pr", "p": [e for _, e in args], "h": {k: e for k, (_, e) in hargs}, "b": form in ("block", "chain"),
-           "t": form in ("block", "chain"), "i": form in ("block", "chain") and "{{else}}" in tpl, "bp": bp}
+           "t": form in ("block", "chain"), "i": form in ("block", "chain") and ("{{else}}" in tpl or "{{^}}" in tpl), "bp": bp}
     cfg = {"escape": "none", "helpers": [{"name": "pr", "kind": "probe"}, {"name": "id", "kind": "vret"}],
            "decorators": [{"name": "sc", "kind": "setctx"}]}
     if rng.chance(0.2):
